@@ -52,7 +52,15 @@ J gen(uint64_t seed, bool thorough) {
   o.T = mode == "crash" ? r.range(6, thorough ? 30 : 14) : r.range(4, 16);
   o.max_biases = 2; o.max_cvs = 2; o.templates = k_templates; o.allow_mts = false; o.p_extended = 0.1;
   if (mode == "damage") { o.templates = bias_templates(); }
+  bool mw = mode == "crash" && r.chance(0.25);   // a multiple-walker metadynamics bias: its replica state file is replaced as well
+  if (mw) o.templates = {"meta_grid", "meta_nogrid", "meta_wt"};
   Scenario sc = gen_scenario(r, o);
+  if (mw) {
+    size_t p = sc.config.find("metadynamics {");
+    if (p != std::string::npos) { size_t q = sc.config.find("\n}", p); sc.config.insert(q + 1, "  multipleReplicas on\n  replicaID w0\n  replicasRegistry /simfs/shared/registry.txt\n  replicaUpdateFrequency " + std::to_string(r.range(2, 5)) + "\n"); sc.tmpl += "+mw"; }
+    size_t k; while ((k = sc.config.find("  keepHills on\n")) != std::string::npos) sc.config.erase(k, 15);
+    while ((k = sc.config.find("  expandBoundaries on\n")) != std::string::npos) sc.config.erase(k, 22);
+  }
   sc.ec.binary_state = r.chance(0.5);
   int rf = (int)r.range(2, 5);
   sc.ec.restart_freq = rf;
@@ -167,6 +175,10 @@ void run_crash(J const &plan, RunResult &res, SimRun &sim) {
   if (!ec.restart_prefix.empty()) prefixes.push_back(ec.restart_prefix);
   std::vector<Completed> refs;
   std::map<std::string, std::string> last_content;
+  // the replica state file of a multiple-walker metadynamics bias (<prefix>.colvars.<bias>.<replica>.state): every content it held at the
+  // end of a step, and whether an I/O error was injected (after one the library's behaviour is the subject of the recorded findings)
+  auto is_replica_state = [](std::string const &path) { return path.size() > 9 && path.compare(path.size() - 9, 9, ".w0.state") == 0 && path.find(".colvars.") != std::string::npos; };
+  std::set<std::string> replica_contents; bool hard_fault_seen = false;
   uint64_t fp = 1469598103934665603ULL;
   std::string kinds;
   {
@@ -175,6 +187,8 @@ void run_crash(J const &plan, RunResult &res, SimRun &sim) {
     fs().journal_start();
     e->record = true;
     auto note_completion = [&](bool clean) {
+      if (!clean) hard_fault_seen = true;
+      for (auto const &path : fs().list("/simfs/")) if (is_replica_state(path)) { std::string c; if (fs().get(path, c)) replica_contents.insert(c); }
       for (auto const &p : prefixes) {
         std::string c, path = p + ".colvars.state";
         if (!fs().get(path, c)) continue;
@@ -215,6 +229,33 @@ void run_crash(J const &plan, RunResult &res, SimRun &sim) {
     fp = hash_recs(e->rec, fp);
   }
   res.fingerprint = fp;
+  // replica state file: after the rename that first puts it in place, every crash image holds one of the complete contents
+  if (!replica_contents.empty() && !hard_fault_seen) {
+    FS snap = fs(); std::vector<FsMutation> const &jq = snap.journal();
+    size_t first_rep = jq.size(); std::string rpath;
+    for (size_t i = 0; i < jq.size(); i++) if (jq[i].k == FsMutation::RENAME && is_replica_state(jq[i].path2)) { first_rep = i + 1; rpath = jq[i].path2; break; }
+    std::set<uint64_t> seen; long rimages = 0;
+    for (size_t i = first_rep; i <= jq.size() && !res.violation && !rpath.empty(); i++) {
+      // the file can only change at calls on it or on the temporary file that is renamed over it
+      auto touches = [&](size_t q) { return q < jq.size() && (jq[q].path.find(".w0.state") != std::string::npos || jq[q].path2.find(".w0.state") != std::string::npos); };
+      if (!touches(i) && !(i > 0 && touches(i - 1))) continue;
+      std::vector<size_t> partials = {0};
+      if (i < jq.size() && jq[i].k == FsMutation::WRITE && jq[i].data.size() > 1) { partials.push_back(1); partials.push_back(jq[i].data.size() - 1); }
+      for (size_t part : partials) {
+        FsImage img = snap.image_at(i, part);
+        auto it = img.find(rpath);
+        uint64_t h = it == img.end() ? 0xdeadULL : fnv_str(it->second, 99);
+        if (seen.count(h)) continue;
+        seen.insert(h); rimages++;
+        if (it != img.end() && replica_contents.count(it->second)) continue;
+        std::string between = i < jq.size() ? std::string(fs_kind_names[jq[i].call_kind]) : "end";
+        std::string prev = i > 0 ? std::string(fs_kind_names[jq[i - 1].call_kind]) : "start";
+        res.fail("crash_image", "replica_state_" + std::string(it == img.end() ? "absent" : "incomplete") + "/after:" + prev + ",before:" + between + (part ? "(partial)" : ""),
+                 "journal index " + std::to_string(i) + " partial " + std::to_string(part) + ": " + rpath + (it == img.end() ? " does not exist" : " holds " + std::to_string(it->second.size()) + " bytes that are none of the states this walker completed"));
+      }
+    }
+    res.counters["probe.replica_state_images_distinct"] += rimages;
+  }
   if (refs.empty()) { res.counters["probe.no_completed_state"]++; return; }
   // keep the journal and base: FS::image_at works on the captured journal even after reset of files
   FS snapshot_fs = fs();   // copy (journal + base inside)
